@@ -187,3 +187,65 @@ func init() {
 		},
 	}
 }
+
+func init() {
+	props["C03"] = &propDef{
+		ID:       "C03",
+		Anchored: []string{").T", ").UT", ").Transpose", ").SafeT", ").RollAxis", "UnsafePermute", "denseTranspose", "transposeMask", "IsMonotonicInts", "tensor.T", "TransposeIndex"},
+		Bounds: map[string]interface{}{"axes": "every entry of every axes vector symbolic in [-1, rank]; permutations enumerated by solver-driven splitting after the call (complete: final unsat query); RollAxis (axis,start) symbolic in [-1, rank+1]",
+			"elements": "symbolic", "shapes": "quick: (3),(2,3),(3,1),(1,3),(2,3,2),(2,2,3); thorough adds (2,2,2),(3,2,2),(2,1,3),(2,2,3,2),(2,1,2,2),(2,2,1,2,2)",
+			"programs": "sequences over {T(sym), T(), UT, Transpose, Materialize, SafeT(sym), tensor.T(sym), RollAxis(sym)} of length <=3 (quick <=2 on rank 3)", "element_sizes": "1,2,4,8,16 bytes and string", "sources": "contiguous, sliced view, column-major",
+			"invalid_axes": "outside the statement: nothing asserted"},
+		Instances: func(tier string, seed int64) []Instance {
+			var out []Instance
+			type sp struct {
+				s     []int
+				progs []string
+			}
+			p2 := []string{"T", "D", "TU", "TX", "DX", "TM", "S", "Z", "R", "RU", "TT", "TXT", "TXU", "DTX", "RX", "ST"}
+			p3 := []string{"T", "TU", "TX", "TM", "S", "R", "RU", "TT", "DT", "TD", "RX", "TTX"}
+			shapes := []sp{{[]int{3}, []string{"T", "D", "TX", "S", "R"}}, {[]int{2, 3}, p2}, {[]int{3, 1}, p2}, {[]int{1, 3}, []string{"T", "TX", "TT", "S", "R", "DX"}},
+				{[]int{2, 3, 2}, p3}, {[]int{2, 2, 3}, []string{"TT", "TX", "S", "R", "TXT"}}}
+			if tier == "thorough" {
+				p3t := append(append([]string{}, p3...), "TXT", "TXU", "Z", "RT", "TR", "DX", "SX")
+				shapes = append(shapes, sp{[]int{2, 2, 2}, p3t}, sp{[]int{3, 2, 2}, p3t}, sp{[]int{2, 1, 3}, p3t}, sp{[]int{2, 3, 2}, p3t},
+					sp{[]int{2, 2, 3, 2}, []string{"T", "TX", "TU", "S", "R", "TM"}}, sp{[]int{2, 1, 2, 2}, []string{"T", "TX", "R", "TT"}}, sp{[]int{2, 2, 1, 2, 2}, []string{"D", "DX", "R"}})
+			}
+			dts := []string{"float64", "int8", "int16", "float32", "complex128", "string"}
+			for si, sh := range shapes {
+				for pi, prog := range sh.progs {
+					for bi, base := range []string{"C", "S", "F"} {
+						if base == "S" && sh.s[len(sh.s)-1] < 2 {
+							continue
+						}
+						for di, dt := range dts {
+							if tier == "quick" {
+								// all size classes on the data-moving programs of contiguous sources; one rotating dtype elsewhere
+								moves := strings.ContainsAny(prog, "XMSZ")
+								if !(base == "C" && moves && len(prog) <= 2) && di != (si+pi+bi)%len(dts) {
+									continue
+								}
+								if base != "C" && len(sh.s) == 3 && len(prog) >= 2 && (pi+bi)%2 == 0 {
+									continue
+								}
+							} else if di != (si+pi+bi)%len(dts) && !(base == "C" && len(prog) <= 2) {
+								continue
+							}
+							out = append(out, mkInst("vhC03Prog", map[string]interface{}{"dtype": dt, "shape": sh.s, "base": base, "prog": prog, "storage": 1, "safeut": 1}, "dtype", "shape", "base", "prog"))
+						}
+					}
+				}
+			}
+			if tier == "thorough" {
+				for _, sh := range [][]int{{2, 3}, {2, 3, 2}, {2, 2, 3}} {
+					for _, prog := range []string{"TX", "DX", "TXT", "TTX"} {
+						for _, dt := range []string{"float64", "int8", "complex128"} {
+							out = append(out, mkInst("vhC03Prog", map[string]interface{}{"dtype": dt, "shape": sh, "base": "C", "prog": prog, "storage": 1, "safeut": 1, "tags": "inplacetranspose"}, "dtype", "shape", "base", "prog", "tags"))
+						}
+					}
+				}
+			}
+			return out
+		},
+	}
+}
